@@ -162,3 +162,43 @@ Definition cout_eqb (a b : cout) : bool :=
   end.
 
 Definition crun_out (ops : list cop) : list cout := snd (crun cinit ops).
+
+(* ---- Context.execute_steps: the caller's text/table (attributes 50 / 51; value 0 = None)
+   are read through the stack, every nested step assigns its own (Step.run), the first
+   nested step that does not pass raises, the originals are assigned back in a finally *)
+Definition k_text : nat := 50.
+Definition k_table : nat := 51.
+
+Record nested := mkNested { n_text : nat; n_table : nat; n_passes : bool }.
+
+Definition attr_or_none (st : cstate) (k : nat) : nat :=
+  match cget st k with Some v => v | None => 0 end.
+
+(* returns (state, (text, table) seen by each nested step that ran, raised) *)
+Fixpoint exec_nested (st : cstate) (steps : list nested) : cstate * list (nat * nat) * bool :=
+  match steps with
+  | [] => (st, [], false)
+  | s :: r =>
+      let st1 := set_top (set_top st k_text (n_text s)) k_table (n_table s) in
+      let seen := (attr_or_none st1 k_text, attr_or_none st1 k_table) in
+      if n_passes s then
+        let '(st2, sn, raised) := exec_nested st1 r in (st2, seen :: sn, raised)
+      else (st1, [seen], true)
+  end.
+
+Definition execute_steps (st : cstate) (steps : list nested) : cstate * list (nat * nat) * bool :=
+  let ot := attr_or_none st k_table in
+  let ox := attr_or_none st k_text in
+  let '(st1, seen, raised) := exec_nested st steps in
+  (set_top (set_top st1 k_table ot) k_text ox, seen, raised).
+
+(* case files: the outer step's text/table, the nested steps; result: seen, raised, text/table afterwards *)
+Definition exec_case (c : nat * nat * list nested) : list (nat * nat) * bool * (nat * nat) :=
+  let '(ox, ot, steps) := c in
+  let st0 := set_top (set_top (mkFrame 4 [] [] :: cinit) k_text ox) k_table ot in
+  let '(st1, seen, raised) := execute_steps st0 steps in
+  (seen, raised, (attr_or_none st1 k_text, attr_or_none st1 k_table)).
+
+Definition exec_out_eqb (a b : list (nat * nat) * bool * (nat * nat)) : bool :=
+  let pair_eqb := fun (x y : nat * nat) => Nat.eqb (fst x) (fst y) && Nat.eqb (snd x) (snd y) in
+  list_eqb pair_eqb (fst (fst a)) (fst (fst b)) && Bool.eqb (snd (fst a)) (snd (fst b)) && pair_eqb (snd a) (snd b).
